@@ -185,7 +185,98 @@ def _check_shape(ctx, case):
         ctx.count("lookups")
 
 
+def _queries_agree(ctx, case, root, nodes, what):
+    """get_root / get_root_side / get_sibling / get_children / is_leaf / get_side of every node against the links as they
+    are NOW. Returns True when all agree (a failure has been reported otherwise)."""
+    for node in nodes:
+        top = node
+        hops = 0
+        while top.parent is not None and hops < 10000:
+            top = top.parent
+            hops += 1
+        kids = [c for c in (node.left, node.right) if c is not None]
+        if node.get_root() is not top:
+            ctx.fail(("query-after-relink", "get_root", what), case, None)
+            return False
+        if [id(c) for c in node.get_children()] != [id(c) for c in kids] or node.is_leaf() != (not kids):
+            ctx.fail(("query-after-relink", "get_children/is_leaf", what), case, None)
+            return False
+        for side, c in (("left", node.left), ("right", node.right)):
+            if c is not None and (node.get_side(c) != side or c.get_sibling() is not (node.right if side == "left" else node.left)):
+                ctx.fail(("query-after-relink", "get_side/get_sibling", what), case, None)
+                return False
+        if node.parent is None:
+            if node.get_sibling() is not None:
+                ctx.fail(("query-after-relink", "get_sibling-root", what), case, None)
+                return False
+        else:
+            a = node
+            while a.parent is not top:
+                a = a.parent
+            if node.get_root_side() != ("left" if top.left is a else "right"):
+                ctx.fail(("query-after-relink", "get_root_side", what), case, None)
+                return False
+    return True
+
+
+def check_relink(ctx, case):
+    """The queries describe the links as they are when asked: every query is asked of every node first, then the tree is
+    re-linked through the public setters (wrapped under a new root on either side, a sub-tree detached, a sub-tree moved to
+    another parent, a node rotated) and every query is asked again."""
+    from . import engine as EN
+
+    try:
+        return _check_relink(ctx, case)
+    except Exception as ex:
+        if not EN.raised_in_code_under_test(ex):
+            raise
+        return ctx.fail(("raised-after-relink",) + EN.exc_site(ex), case, {"error": repr(ex)[:200]})
+
+
+def _check_relink(ctx, case):
+    shape = S.from_text(case["shape"])
+    k = case["k"]
+    for op in ("wrap-left", "wrap-right", "detach", "move", "rotate"):
+        make = _mk_plain() if case["family"] == "plain" else _mk_math()
+        root, nodes = S.build(shape, make)
+        if not _queries_agree(ctx, case, root, nodes, "before"):
+            return
+        n = nodes[k % len(nodes)]
+        if op in ("wrap-left", "wrap-right"):
+            top = make("left" if op == "wrap-left" else "right")
+            (top.set_left if op == "wrap-left" else top.set_right)(root)
+            allnodes = [top] + nodes
+        elif op == "detach":
+            if n.parent is None:
+                continue
+            p = n.parent
+            (p.set_left if p.left is n else p.set_right)(None, clear_old_child_parent=True)
+            allnodes = nodes
+        elif op == "move":
+            # move the sub-tree of n under a leaf that is not inside it
+            inside = {id(a) for a, _ in S.naive(n, "preorder")}
+            target = next((m for m in nodes if id(m) not in inside and m.left is None and m.right is None), None)
+            if n.parent is None or target is None:
+                continue
+            p = n.parent
+            (p.set_left if p.left is n else p.set_right)(None, clear_old_child_parent=True)
+            target.set_left(n)
+            allnodes = nodes
+        else:
+            if n.parent is None:
+                continue
+            n.rotate()
+            allnodes = nodes
+        ctx.count("relinks")
+        if len(nodes) >= 3:
+            ctx.nontriv(("relink", case["shape"], case["family"], k, op))
+        if not _queries_agree(ctx, case, None, allnodes, op):
+            return
+
+
 def replay(ctx, case):
+    if "k" in case:
+        return check_relink(ctx, case)
     check_shape(ctx, case)
 
 
@@ -209,3 +300,14 @@ def run(ctx):
 
     strat = st.builds(lambda s, f: {"shape": s, "family": f}, S.shape_strategy(60, 9), st.sampled_from(["plain", "math"]))
     hyp_run(ctx, "random-shapes", strat, check_shape, ctx.n(300, 1500))
+    # queries after re-linking: every shape <= 6 (quick) / 7 (thorough) nodes x every node x five re-link operations
+    rn = 6 if ctx.tier == "quick" else 7
+    for n in range(2, rn + 1):
+        for i, sh in enumerate(S.shapes_exact(n)):
+            if i % ctx.nshards != ctx.shard:
+                continue
+            for k in range(n):
+                ctx.count("evaluations")
+                check_relink(ctx, {"shape": S.to_text(sh), "family": "plain" if (i + k) % 2 else "math", "k": k})
+    relink = st.builds(lambda s, f, k: {"shape": s, "family": f, "k": k}, S.shape_strategy(40, 5), st.sampled_from(["plain", "math"]), st.integers(0, 39))
+    hyp_run(ctx, "relink", relink, check_relink, ctx.n(300, 1500))
